@@ -40,6 +40,8 @@ def _name(rng, allow_space=True):
         n = rng.choice(WORDS) + rng.choice(["$", "*", "\\", "#", "(", ")", "[", "%"]) + rng.choice(WORDS)
     elif k < 0.93 and allow_space:
         n = rng.choice(WORDS) + " " + str(rng.randint(0, 99)) + " " + rng.choice(WORDS)  # digits inside a name
+    elif k < 0.96:
+        n = rng.choice(["$", "lib.$", "prompt-$", "a$$", "$start", "-", "--flag", "#anchor"])  # '$' / '-' at the edges
     else:
         n = rng.choice(WORDS) + str(rng.randint(0, 999))
     return n
